@@ -180,7 +180,7 @@ class Peer:
         if op == "treq":
             rel = act["id"]
             tid = {"ours": self.our_tid or str(now // 1000), "now": str(now // 1000), "0": "0", "abc": "abc",
-                   "long": "9" * 60, "absent": None}[rel]
+                   "latin1": "id\xe9\xff", "long": "9" * 60, "absent": None}[rel]
             act = {"op": "frame", "mtype": "1", "body": [] if tid is None else [(112, tid)], "num": act.get("num", "new")}
             op = "frame"
         if op == "rr":
@@ -530,7 +530,7 @@ def peers_for(h):
                     b["extras"] = [[off, act], [off + H + 125, {"op": "rr", "rel": "high"}]]
                 out.append(b)
     # ---- the VALUE of the peer's TestReqID relative to our state, in every state (probe outstanding / not)
-    for rel in ("ours", "now", "0", "absent", "abc", "long"):
+    for rel in ("ours", "now", "0", "absent", "abc", "latin1", "long"):
         for d in (125, H, 2 * H + 125):      # echo delay: our probe is outstanding for that long
             for cd in (0, 125, d + 125):      # the peer's own probe arrives with ours / before its echo / after it
                 out.append({"kind": "answer", "answer": {"delay": d, "flavour": "right", "cross": rel, "cross_delay": cd}})
@@ -917,7 +917,12 @@ def finding_witnesses():
 
 
 def oracle(ctx, disagreements, broken):
-    runs = list(getattr(ctx, "_c12_runs", []))
+    import logging
+
+    # the second (DEBUG-logging) pass must EXECUTE the implementation again: results cached from the
+    # correspondence were produced with logging disabled
+    debug_pass = logging.root.manager.disable < logging.DEBUG
+    runs = [] if debug_pass else list(getattr(ctx, "_c12_runs", []))
     impl = S.Impl()
     try:
         extra = finding_witnesses() + [d["input"]["scenario"] for d in disagreements[:50]] + config_specs()
